@@ -531,9 +531,9 @@ def rule_amibounds(ctx):
             return ax, (0 if tr else 1)
         if t.op == "sub" and t.a[1].op == "tuple" and len(t.a[1].a) == 2:
             k0, k1 = t.a[1].a
-            if k0.op == "slice" and k1.op == "const" and k1.a[0] is None:
+            if k0.op == "slice" and tm._is_newaxis(k1):
                 return ax, (1 if tr else 0)
-            if k1.op == "slice" and k0.op == "const" and k0.a[0] is None:
+            if k1.op == "slice" and tm._is_newaxis(k0):
                 return ax, (0 if tr else 1)
         return "layout not recognised: %s" % tm.show(t, 3)
 
